@@ -71,10 +71,10 @@ const (
 	chHookOK    = "webhook"
 	chHookFail  = "webhook-failing"
 	chHookOK2   = "webhook-2"
-	urlHookOK2  = "http://hook-second.verif.example/events"
+	urlHookOK2  = "http://hook-second.verif.example/Events/Second?Key=AbC"
 	chHookOK3   = "webhook-3"
-	urlHookOK3  = "http://a-hook-third.verif.example/events"
-	urlHookOK   = "http://hook-ok.verif.example/events"
+	urlHookOK3  = "http://a-hook-third.verif.example/events/"
+	urlHookOK   = "http://hook-ok.verif.example/Events"
 	urlHookFail = "http://hook-failing.verif.example/events"
 )
 
@@ -138,6 +138,7 @@ func insideAdd() bool {
 // ---- run-time switchboard shared by the channel ends of one stack
 
 type board struct {
+	misaddressed  atomic.Int64 // webhook POSTs to a URL nobody registered
 	rec           recorder
 	mu            sync.RWMutex
 	beh           map[string]string // recording channel name -> behaviour for the current history
@@ -346,14 +347,20 @@ func (f *faultyWebhooks) UpdateWebhook(w *notification.Webhook) error {
 type recClient struct{ b *board }
 
 func (c *recClient) Call(_ map[string]string, method string, url string, body any) (*http.Response, error) {
-	ch := chHookOK
+	// a webhook's events go to the URL it was registered with, character for character (path case, trailing slash, query)
+	ch := ""
 	switch url {
+	case urlHookOK:
+		ch = chHookOK
 	case urlHookFail:
 		ch = chHookFail
 	case urlHookOK2:
 		ch = chHookOK2
 	case urlHookOK3:
 		ch = chHookOK3
+	default:
+		c.b.misaddressed.Add(1)
+		return &http.Response{StatusCode: 404, Status: "404 Not Found", Header: http.Header{}, Body: io.NopCloser(strings.NewReader("no such receiver"))}, nil
 	}
 	c.b.rec.add(delivery{Channel: ch, Payload: marshal(body), Sync: insideAdd(), Extra: method})
 	if ch == chHookFail {
@@ -599,10 +606,16 @@ CREATE TRIGGER IF NOT EXISTS verif_c11_ins BEFORE INSERT ON headers WHEN (SELECT
 // one takes the request in and then, in turn, answers 500, drops the connection without answering, answers 503.
 func (e *env) startHookServers() {
 	var failSeq atomic.Int64
+	tails := map[string]string{chHookOK: "/Events", chHookFail: "/events", chHookOK2: "/Events/Second?Key=AbC", chHookOK3: "/events/"}
 	for _, ch := range []string{chHookOK, chHookFail, chHookOK2, chHookOK3} {
 		ch := ch
 		srv := httptest.NewUnstartedServer(http.HandlerFunc(func(w http.ResponseWriter, q *http.Request) {
 			body, _ := io.ReadAll(q.Body)
+			if q.URL.RequestURI() != tails[ch] {
+				e.b.misaddressed.Add(1)
+				http.Error(w, "no such receiver", http.StatusNotFound)
+				return
+			}
 			e.b.rec.add(delivery{Channel: ch, Payload: body, Extra: q.Method})
 			switch ch {
 			case chHookOK2:
@@ -636,7 +649,7 @@ func (e *env) startHookServers() {
 		srv.Config.SetKeepAlivesEnabled(false) // no idle connections: the goroutine count goes back to the baseline
 		srv.Start()
 		e.servers = append(e.servers, srv)
-		e.urls[ch] = srv.URL + "/events"
+		e.urls[ch] = srv.URL + tails[ch]
 	}
 }
 
@@ -1079,6 +1092,9 @@ func (e *env) runHistory(caseID string, rng *rand.Rand, hist gen.History, pFail 
 			r.Count("nonstored_hashes_checked_for_silence_"+sit, 1)
 		}
 	}
+	if n := b.misaddressed.Swap(0); n > 0 {
+		violate("webhook|posted-to-a-url-nobody-registered", fmt.Sprintf("%d webhook POSTs went to a URL that differs from every registered one (path case, trailing slash and query are part of the URL)", n), nil)
+	}
 	r.Count("histories", 1)
 	r.Count("websocket_publish_failures_injected", b.wsFail.Swap(0))
 	r.Count("hiccups_of_a_healthy_webhook", b.flakyFailures.Swap(0))
@@ -1143,7 +1159,7 @@ func clip(s string) string {
 }
 
 func body(r *ev.Run) {
-	r.Rule("histories = seeded random histories of the C01 generator (forks, orphans, late parents, duplicates, forbidden hashes, all work classes) with store failures injected at repository.Headers.AddHeaderToDatabase (and UpdateState in every 6th history) with probability {0, 0.05, 0.15} per submission; channel set on the real Notifier = 3 recording channels whose behaviours per history are 3 of {ok, error, slow, blocked until released after ingestion} in random order + real websocket channel over a recording publisher that fails every n-th publish (n in {never,2,3}) + real WebhooksService over the SQL repository with three healthy (registered with bearer, custom-header and no authorisation; one of them answering 500 to every third call, never twice in a row) and an always-failing webhook; a share of the histories runs with the production webhook client (transports/http/client) posting to real HTTP servers, the failing one answering 500 / dropping the connection after reading the request / answering 503 in turn; bursts of 300-500 headers while the websocket publisher is blocked; every 6th fault-free submission is made by two goroutines at once (two peers delivering the same header; the first duplicate look-up waits up to 1.5 ms for the second to arrive). evaluations = histories; distinct = distinct (behaviour assignment, history shape); non-trivial = history with a fork, orphan, duplicate or a non-stored submission.")
+	r.Rule("histories = seeded random histories of the C01 generator (forks, orphans, late parents, duplicates, forbidden hashes, all work classes) with store failures injected at repository.Headers.AddHeaderToDatabase (and UpdateState in every 6th history) with probability {0, 0.05, 0.15} per submission; channel set on the real Notifier = 3 recording channels whose behaviours per history are 3 of {ok, error, slow, blocked until released after ingestion} in random order + real websocket channel over a recording publisher that fails every n-th publish (n in {never,2,3}) + real WebhooksService over the SQL repository with three healthy (registered with bearer, custom-header and no authorisation; one of them answering 500 to every third call, never twice in a row) and an always-failing webhook (URLs with upper-case letters, a trailing slash and a query: a POST to any other URL is reported); re-registration cases: a webhook is switched off by max_tries failures, its receiver recovers, it is registered again and must get exactly one event for every header stored afterwards; a share of the histories runs with the production webhook client (transports/http/client) posting to real HTTP servers, the failing one answering 500 / dropping the connection after reading the request / answering 503 in turn; bursts of 300-500 headers while the websocket publisher is blocked; every 6th fault-free submission is made by two goroutines at once (two peers delivering the same header; the first duplicate look-up waits up to 1.5 ms for the second to arrive). evaluations = histories; distinct = distinct (behaviour assignment, history shape); non-trivial = history with a fork, orphan, duplicate or a non-stored submission.")
 	r.Assume("'stored' = Chains.Add returned without error", "the stored header = its headers row (immutable columns at the end of the history, header_state right after Add returned)",
 		"logical quiescence = goroutine count back at the pre-history baseline plus the deliveries parked in blocked channels (or, if some unrelated long-lived goroutine appeared, every expected delivery recorded and a stable goroutine count)",
 		"the always-failing webhook may be deactivated by the service: only 'at most one call per stored header, none otherwise' is required of it", "SQLite only; built with -race")
@@ -1249,6 +1265,11 @@ func body(r *ev.Run) {
 			pe.runHistory(caseID, rng, hist, pFail, false)
 			r.Count("production_client_histories", 1)
 		})
+	}
+	// a webhook that was switched off after max_tries failures and is registered again is a registered channel again
+	for i := 0; i < r.Pick(4, 40); i++ {
+		caseID := fmt.Sprintf("rereg/%d", i)
+		r.Do(caseID, func() { reRegistered(r, caseID, i) })
 	}
 	// the same with a live websocket node and a real centrifuge client subscribed to "headers"
 	nLive := r.Pick(16, 320)
